@@ -5,6 +5,7 @@ package main
 
 import (
 	"go/ast"
+	"go/types"
 	"sort"
 	"strings"
 )
@@ -304,7 +305,19 @@ func findAttrWriter(c *Check, f format) string {
 		// the function whose graph has a loop over the request's attribute list
 		// (any loop form: counted loops over len(x) are range loops in the graph)
 		name := c.P.abbrev(fs.Obj.FullName())
-		pg := c.skeleton(name)
+		// helpers that are handed the attribute list are part of the writer
+		var keep []string
+		for _, cal := range c.P.directCallees(fs) {
+			if cf := c.P.fn(cal); cf != nil {
+				sig := cf.Obj.Type().(*types.Signature)
+				for i := 0; i < sig.Params().Len(); i++ {
+					if c.P.typeStr(sig.Params().At(i).Type()) == "[]ncg/signature.Attribute" {
+						keep = append(keep, cal)
+					}
+				}
+			}
+		}
+		pg := c.skeleton(name, keep...)
 		if pg == nil {
 			continue
 		}
